@@ -1,6 +1,8 @@
 """Helpers shared by several rule modules."""
 from __future__ import annotations
 
+from sa.model import clone as _clone
+
 import ast
 from typing import Iterator
 
@@ -521,4 +523,4 @@ def expand_calls(ctx: Context, fn: FunctionInfo, expr: ast.AST | None,
             return expand_calls(ctx, h, r, depth - 1) or node
 
     del orig_calls
-    return ast.fix_missing_locations(T().visit(copy.deepcopy(e)))
+    return ast.fix_missing_locations(T().visit(_clone(e)))
